@@ -275,7 +275,9 @@ class Ctx:
         }
         ev["coverage"]["known_findings_reported"] = [k[0] for k in self.known]
         os.makedirs(os.path.join(VERIF, "evidence"), exist_ok=True)
-        with open(os.path.join(VERIF, "evidence", self.prop + ".json"), "w") as f:
+        # (runs against a deliberately broken tree, bin/tryseed and bin/seedeval, leave the evidence alone)
+        evpath = os.devnull if os.environ.get("VERIF_NO_EVIDENCE") else os.path.join(VERIF, "evidence", self.prop + ".json")
+        with open(evpath, "w") as f:
             json.dump(ev, f, indent=1, sort_keys=True, default=str)
             f.write("\n")
         for sig, text in self.known:
